@@ -5,6 +5,7 @@ import (
 	"encoding/json"
 	"fmt"
 	"os"
+	"regexp"
 	"sort"
 	"strings"
 
@@ -174,6 +175,9 @@ func c02Gate(c *Ctx) {
 	}
 }
 
+var c02VerRe = regexp.MustCompile(`version [0-9]+`)
+var c02HexRe = regexp.MustCompile(`[0-9a-f]{32}`)
+
 func c02Stability(c *Ctx) {
 	nh, steps := 3, 40
 	if c.Thorough {
@@ -231,7 +235,81 @@ func c02Stability(c *Ctx) {
 				}
 			}
 		}
+		// directed: a version that is created and committed without a single request addressed to it has the
+		// content of its parent; its first read comes only after its child was mutated (label merges, cleaves,
+		// writes), and must equal the parent's committed snapshot
+		var untouched, untouchedParent *wnode
+		if len(committedSnap) > 0 || len(w.nodes) > 0 {
+			var p *wnode
+			for _, n := range w.nodes {
+				if n.locked && committedSnap[n.v] != nil {
+					p = n
+				}
+			}
+			if p == nil {
+				p = w.nodes[len(w.nodes)-1]
+				w.commit(p)
+				committedSnap[p.v] = filter(w.Snapshot(), p.v)
+			}
+			if a := w.child(p, true); a != nil {
+				w.commit(a)
+				if b := w.child(a, true); b != nil {
+					for k := 0; k < 6; k++ {
+						switch k % 3 {
+						case 0:
+							if !w.lmMerge(b) {
+								w.lmIngest(b, false)
+							}
+						case 1:
+							if !w.lmCleave(b) {
+								w.lmMerge(b)
+							}
+						default:
+							w.kvOp(b)
+							w.annPost(b)
+						}
+					}
+					untouched, untouchedParent = a, p
+					c.Count("stability.untouched-committed-version")
+				}
+			}
+		}
 		final := w.Snapshot()
+		if untouched != nil {
+			want := map[string]string{}
+			pp, ap := fmt.Sprintf("v%d:", untouchedParent.v), fmt.Sprintf("v%d:", untouched.v)
+			// error texts name the version id and the uuid of the request: masked on both sides
+			mask := func(x string) string {
+				if len(x) > 3 && (x[0] == '4' || x[0] == '5') && x[3] == ' ' {
+					return x[:3] + " <error text>" // it quotes the request path; long texts are stored as a hash
+				}
+				return c02HexRe.ReplaceAllString(c02VerRe.ReplaceAllString(x, "version <n>"), "<uuid>")
+			}
+			// lm/maxlabel is kept per version and not inherited (recorded as outside the statements, DESIGN.md
+			// section 5.2): it is not part of "the content of the parent"
+			for k, x := range committedSnap[untouchedParent.v] {
+				if !strings.HasSuffix(k, ":lm/maxlabel") {
+					want[ap+strings.TrimPrefix(k, pp)] = mask(x)
+				}
+			}
+			got := filter(final, untouched.v)
+			for k, x := range got {
+				if strings.HasSuffix(k, ":lm/maxlabel") {
+					delete(got, k)
+				} else {
+					got[k] = mask(x)
+				}
+			}
+			diffs := diffSnap(want, got)
+			if len(diffs) > 0 {
+				if len(diffs) > 3 {
+					diffs = diffs[:3]
+				}
+				c.Report("O", "C02 committed-read-changed untouched-version", "a version committed without any change reads differently from its parent once its child was mutated",
+					strings.Join(diffs, "\n")+"\n\nhistory:\n  "+strings.Join(w.hist, "\n  "))
+			}
+			c.Evals += len(want)
+		}
 		for v, snap := range committedSnap {
 			diffs := diffSnap(snap, filter(final, v))
 			bysig := map[string][]string{}
